@@ -123,15 +123,16 @@ class IRModule(nn.Module):
             elif k == "matmul":
                 v = T.matmul(a[0], P[p["w"]])
             elif k == "gelu":
-                v = T.gelu(a[0])
+                v = T.gelu(input=a[0], approximate="tanh") if p.get("kw") else T.gelu(a[0])
             elif k == "silu":
-                v = T.silu(a[0])
+                v = T.silu(input=a[0]) if p.get("kw") else T.silu(a[0])
             elif k == "softmax":
-                v = T.softmax(a[0], dim=-1)
+                v = T.softmax(input=a[0], dim=-1) if p.get("kw") else T.softmax(a[0], dim=-1)
             elif k == "dropout":
                 v = T.dropout(a[0], p=0.0)
             elif k == "layer_norm":
-                v = T.layer_norm(a[0], (H,), P[p["w"]], P[p["b"]])
+                v = T.layer_norm(input=a[0], normalized_shape=(H,), weight=P[p["w"]], bias=P[p["b"]]) if p.get("kw") \
+                    else T.layer_norm(a[0], (H,), P[p["w"]], P[p["b"]])
             elif k == "sdpa":
                 kw: Dict[str, Any] = {}
                 if p.get("causal"):
@@ -140,7 +141,7 @@ class IRModule(nn.Module):
                     kw["attn_mask"] = P[p["mask"]]
                 if p.get("dropout0"):
                     kw["dropout_p"] = 0.0
-                v = T.sdpa(a[0], a[1], a[2], **kw)
+                v = T.sdpa(query=a[0], key=a[1], value=a[2], **kw) if p.get("kw") else T.sdpa(a[0], a[1], a[2], **kw)
             elif k == "embedding":
                 v = T.embedding(a[0], P[p["w"]])
             elif k == "conv1d":
@@ -196,7 +197,7 @@ UNMAPPED = ["tanh", "relu", "mulc", "reshape", "neg"]
 def gen_program(rng: random.Random, n_ops: int, *, residuals: int = 2, wrappers: bool = True, attention: bool = True,
                 losses: bool = False, fan_out: bool = False, lists: bool = False, nonfloat: bool = False,
                 embedding: bool = False, multi_out: bool = False, plain_adds: bool = True,
-                side_paths: bool = False) -> Program:
+                side_paths: bool = False, kw_tensors: bool = False) -> Program:
     ops: List[Op] = []
     params: Dict[str, Tuple[int, ...]] = {}
     modules: Dict[str, Tuple[str, Tuple]] = {}
@@ -253,7 +254,8 @@ def gen_program(rng: random.Random, n_ops: int, *, residuals: int = 2, wrappers:
         elif k == "matmul":
             ops.append(Op(k, [src], {"w": new_param("w", (H, H))}))
         elif k == "layer_norm":
-            ops.append(Op(k, [src], {"w": new_param("g", (H,)), "b": new_param("b", (H,))}))
+            ops.append(Op(k, [src], {"w": new_param("g", (H,)), "b": new_param("b", (H,)),
+                                     **({"kw": True} if kw_tensors and rng.random() < 0.5 else {})}))
         elif k.startswith("nn."):
             cls = k[3:]
             name = f"m{len(modules)}"
@@ -271,6 +273,8 @@ def gen_program(rng: random.Random, n_ops: int, *, residuals: int = 2, wrappers:
                 p["dropout0"] = True
             ops.append(Op("linear_nb", [src], {"w": new_param("w", (H, H))}))
             kk = nvals() - 1
+            if kw_tensors and rng.random() < 0.5:
+                p["kw"] = True
             ops.append(Op("sdpa", [q, kk, src], p))
         elif k == "mulc":
             ops.append(Op(k, [src], {"c": rng.choice([0.5, 2.0, -1.0])}))
@@ -278,7 +282,7 @@ def gen_program(rng: random.Random, n_ops: int, *, residuals: int = 2, wrappers:
             ops.append(Op("tanh", [src]))
             ops.append(Op(k, [src, nvals() - 1]))
         else:
-            ops.append(Op(k, [src]))
+            ops.append(Op(k, [src], {"kw": True} if (kw_tensors and k in ("gelu", "silu", "softmax") and rng.random() < 0.5) else {}))
         return nvals() - 1
 
     blocks = residuals
